@@ -239,5 +239,17 @@ def run(rep: Report, tier: str) -> None:
                                 f"documented input {ex!r} ({row[0]}) is normalised by vtl_period_normalize to {norm!r}, which is not a canonical accepted period"))
     rep.floor("documented Time_Period examples", nex, 10)
     rep.analysed = {"render_cells": ncell, "docs_examples": nex, "formats": FORMATS}
+    # ---- R21.4: no memoised renderer / parser of periods whose result depends on the (process-global) output format ----
+    rep.rule("R21.4", "memoised functions on the Time_Period path return immutable values that depend only on their arguments")
+    from sa import globalsx as _gx
+    _n = 0
+    for _f in P.iter_functions():
+        if any(d in _gx.CACHE_DECOS or d.split(".")[-1] in _gx.CACHE_DECOS for d in _f.decorators) and _f.module.name.startswith(("vtlengine.files", "vtlengine.DataTypes", "vtlengine.duckdb_transpiler.io")):
+            _n += 1
+            rep.instance("R21.4", f"memo/{_f.qualname}", nontrivial=True)
+    for _f, _why, _line in _gx.memo_findings(P, ("vtlengine.files", "vtlengine.DataTypes", "vtlengine.duckdb_transpiler.io")):
+        rep.add(Finding("R21.4", f"R21.4/memo/{_f.qualname}", _f.module.rel, _line, _f.qualname,
+                        f"{_f.name} is memoised and {_why}: a period rendered under one time_period_output_format is returned again under another"))
+    rep.instance("R21.4", "memo-inventory", nontrivial=False, sample=_n)
     rep.assumptions = ["canonical internal form = TimePeriodHandler.__str__ (lowered from the source)", "SQL string functions SUBSTR/LENGTH/LPAD/"
                        "UPPER/CAST/TRY_CAST/|| have standard semantics; period_to_date(year,'D',n) = 1 January + (n-1) days"]
